@@ -41,7 +41,7 @@ def cases(tier, seed):
         if tier == "quick" and shape == "octa":
             subsets = rnd.sample(subsets, 60)
         for s in subsets:
-            add(shape, s, rnd.choice(rots), [rnd.randint(-20, 20) for _ in range(3)], rnd.choice([1, 2, 3]), 2.0 ** -17, rnd.randint(0, 5), rnd.randint(0, 7))
+            add(shape, s, rnd.choice(rots), [rnd.randint(-20, 20) for _ in range(3)], rnd.choice([1, 2, 3]), rnd.choice([2.0 ** -17, 2.0 ** -17, 2.0 ** -30, 2.0 ** -37, 2.0 ** 20]), rnd.randint(0, 5), rnd.randint(0, 7))
     # rigid motions, scalings, renumberings of seeds and boxes (integer-normal meshes: area and centroid exact)
     boxes = [[1, 1, 1], [2, 1, 1], [1, 3, 2], [2, 2, 3], [3, 1, 1]] if tier == "quick" else [[a, b, c] for a in (1, 2, 3) for b in (1, 2, 3) for c in (1, 2, 4)]
     nmot = 6 if tier == "quick" else 24
@@ -50,10 +50,10 @@ def cases(tier, seed):
             t = rnd.choice([[0, 0, 0], [7, -3, 50], [-100, 1, 2], [1000, -1000, 500]])
             nfb = 4 * (dims[0] * dims[1] + dims[1] * dims[2] + dims[0] * dims[2])
             flip = rnd.sample(range(nfb), rnd.randint(0, nfb))
-            add("box", flip, g, t, rnd.choice([1, 2, 3]), rnd.choice([2.0 ** -17, 2.0 ** -20, 1.0]), rnd.randint(0, 50), rnd.randint(0, 50), dims, rnd.randint(0, 1))
+            add("box", flip, g, t, rnd.choice([1, 2, 3]), rnd.choice([2.0 ** -17, 2.0 ** -20, 1.0, 2.0 ** -30, 2.0 ** -37, 2.0 ** 20]), rnd.randint(0, 50), rnd.randint(0, 50), dims, rnd.randint(0, 1))
     for shape in ("tetra", "octa", "bipyr"):
         for g in rots:
-            add(shape, [], g, rnd.choice([[0, 0, 0], [300, -200, 100]]), rnd.choice([1, 2, 3]), rnd.choice([2.0 ** -17, 1.0]), rnd.randint(0, 5), rnd.randint(0, 7))
+            add(shape, [], g, rnd.choice([[0, 0, 0], [300, -200, 100]]), rnd.choice([1, 2, 3]), rnd.choice([2.0 ** -17, 1.0, 2.0 ** -33]), rnd.randint(0, 5), rnd.randint(0, 7))
     for i, c in enumerate(out):
         c["k"] = i + 1
     return out
